@@ -252,6 +252,15 @@ impl Array {
             None
         } else {
             Some(Rc::new(move |c, t, x| {
+                // the dot product of two vectors scales each vector by the delta
+                if c[0].dimensions.len() < 2 && c[1].dimensions.len() < 2 {
+                    return vec![
+                        if t[0] { Some(&c[1] * x) } else { None },
+                        if t[1] { Some(&c[0] * x) } else { None },
+                        if t[2] { Some(x.clone()) } else { None },
+                    ];
+                }
+
                 vec![
                     if t[0] {
                         Some(if a_transpose {
